@@ -168,6 +168,24 @@ CLAIMED = {
              'execution, not proved. All theorems closed under the global context.',
         technique='Coq proofs about an executable three-valued model of is_subhint (induction on hints / fuel) + refutation witnesses by vm_compute + differential correspondence on pairs and triples',
         design='5/C19'),
+    'C14': dict(
+        text='Machine-checked (Coq 8.16.1) over models of beartype\'s two memoising decorators and arbitrary operation '
+             'histories: @callable_cached (keyed by ==/hash, memoising values and exceptions, bypassed for unhashable '
+             'arguments, cleared at any point) answers exactly like the uncached callable after every history, for '
+             'every callable that cannot tell ==-equal arguments apart - and that hypothesis is shown necessary; '
+             '@method_cached_arg_by_id answers like the uncached method after every history of allocations, garbage '
+             'collections with address reuse, calls and clears in which no memoised-on object is collected (pinning), '
+             'and is machine-refuted without pinning (F14). The models are compared with the real decorators on '
+             'generated histories (real address reuse observed and replayed); the public API is compared with itself '
+             'in a pristine forked interpreter after generated histories (equal / similar / unhashable / failing '
+             'hints, gc, clear_caches, late definition and redefinition of forward-referenced classes); the set of '
+             'identifier-keyed memoisation sites is re-scanned on every run.',
+        note='Trusted: Coq kernel; the hand-written models C14/Memo.v (tied by correspondence); congruence of '
+             'beartype\'s own memoised callables is tested through public-API histories, not proved; the other cache '
+             'containers (CacheUnbounded*, per-object attribute caches) are exercised by those histories only. All '
+             'theorems closed under the global context.',
+        technique='Coq invariant proofs over operation histories of two cache disciplines (==-keyed with exceptions; id-keyed with heap/gc) + refutation witnesses + differential correspondence with the real decorators and with pristine interpreters',
+        design='5/C14'),
     'C04': dict(
         text='Machine-checked (Coq 8.16.1): for every signature over the five parameter kinds with pairwise '
              'distinct names and every call that CPython\'s binding rule accepts, the values selected by the '
